@@ -385,7 +385,8 @@ var trivialCounts = map[string]int{}
 
 func (fr *FuncResult) trivial(kind string) {
 	// an obligation whose goal simplified to true during generation (e.g. "result == nil" at "return nil")
-	if kind == "post" {
+	// ... or a call-site clause that holds syntactically (the argument is the very term the clause names)
+	if kind == "post" || kind == "callsite" {
 		fr.TrivialPost++
 	}
 }
